@@ -48,6 +48,21 @@ C15_QUICK = ([_h(f"c15::c15_interleave_{s}", timeout=1500, mem_gb=8, bound=f"sha
              + [_h(f"c15::{n}", mem_gb=6, bound="one pattern, block size as named") for n, nd in PATTERNS if "_p4_" not in n or n.endswith("_b1")])
 C15_THOROUGH = ([_h(f"c15::c15_interleave_{s}", timeout=2400, mem_gb=8, bound=f"shape columns x rows = {s}") for s in C15_IL_ALL]
                 + [_h(f"c15::{n}", mem_gb=6, bound="one pattern, block size as named") for n, nd in PATTERNS])
+MSA_FL = [n for n in NAMES if n.startswith("Minstarapproxi8")]
+MSA_HL = [n for n in NAMES if n.startswith("HLMinstarapproxi8")]
+_DEC_BOUND = "BOUNDED cross-check: fixed 2x3 (H1) / 3x4 (H2) matrix, all f64 LLRs with |x| <= 1e30, limit <= 2 (H1) / 1 (H2)"
+C01_KANI_QUICK = [_h(f"c01::c01_h1__{n}", timeout=2400, mem_gb=5, bound=_DEC_BOUND) for n in ["Minstarapproxi8", "HLMinstarapproxi8"]]
+C01_KANI_THOROUGH = ([_h(f"c01::c01_h1__{n}", timeout=3600, mem_gb=5, bound=_DEC_BOUND) for n in MSA_FL + MSA_HL]
+                     + [_h(f"c01::c01_h2__{n}", timeout=3600, mem_gb=6, bound=_DEC_BOUND) for n in ["Minstarapproxi8", "HLMinstarapproxi8"]])
+_HIST_BOUND = "BOUNDED: two-call histories on the fixed 2x3 matrix, limits (first, second) as named, all f64 LLRs with |x| <= 1e30"
+C10_KANI_QUICK = [_h(f"c01::{h}", timeout=3000, mem_gb=5, bound=_HIST_BOUND) for h in
+                  ["c10_h1_1_0__Minstarapproxi8", "c10_h1_1_1__Minstarapproxi8", "c10_h1_1_1__HLMinstarapproxi8"]]
+C10_KANI_THOROUGH = [_h(f"c01::c10_h1_{p}__{n}", timeout=3600, mem_gb=5, bound=_HIST_BOUND) for n in MSA_FL + MSA_HL for p in ["1_0", "1_1"]]
+C03_KANI = [_h(f"c03::{h}", timeout=3000, mem_gb=6,
+               bound="BOUNDED: checker-supplied exact integer min-sum arithmetic, integer LLRs in [-7,7], limit <= 2, fixed matrix")
+            for h in ["c03_flooding_h1", "c03_layered_h1", "c03_layered_h2"]]
+C03_KANI_THOROUGH = C03_KANI + [_h("c03::c03_flooding_h2", timeout=7200, mem_gb=8,
+                                   bound="BOUNDED: as above on the 3x4 matrix")]
 C17_KANI = [_h(f"c17::{n}", mem_gb=5, timeout=1500,
                bound="BOUNDED stand-in: one concrete scenario on a fixed 2x3 or 3x2 matrix; never counted as proved")
             for n in ["c17_views_fixed", "c17_set_row_wide_repeat", "c17_set_row_wide_other", "c17_set_row_tall_empty",
@@ -123,7 +138,7 @@ PROPS = {
             {"unit": "hl_c01", "template": "decode/hl.rs.in", "defines": ["C01"], "rlimit": 100, "canary": True,
              "frames": HL_FRAMES},
         ],
-        "kani": {"quick": [], "thorough": []},
+        "kani": {"quick": C01_KANI_QUICK, "thorough": C01_KANI_THOROUGH},
         "witness": "c01",
         "assumptions": DECODE_ASSUMPTIONS,
     },
@@ -136,7 +151,7 @@ PROPS = {
             {"unit": "hl_c10", "template": "decode/hl.rs.in", "defines": ["C10"], "rlimit": 100, "canary": True,
              "frames": HL_FRAMES},
         ],
-        "kani": {"quick": [], "thorough": []},
+        "kani": {"quick": C10_KANI_QUICK, "thorough": C10_KANI_THOROUGH},
         "witness": "c10",
         "assumptions": DECODE_ASSUMPTIONS + [
             "functional claims of the trusted callees: every buffer a callee can write (syntactic write set, derived from the source on each run) is completely rewritten from the named inputs",
@@ -194,5 +209,13 @@ PROPS = {
         "kani": {"quick": C14_ALL, "thorough": C14_ALL},
         "explanation_all": "PARTIAL. Decided by Kani on the real functions: the 8PSK constellation is the DVB-S2 Gray mapping with unit energy (all 8 triples, complete); BPSK maps 0 -> -1, 1 -> +1 and its LLR is zero at 0, odd in the sample and has the sign of minus the sample for every finite sample and sigma in [1e-3,1e3]; hard decisions on noiseless BPSK and 8PSK symbols return the bits (8PSK at sigma 0.1 under an axiomatised max*). NOT decided: that the soft values equal log P(0|r)/P(1|r) (bit-exact floating-point equivalence did not finish in CBMC; real analysis of max* is out of reach).",
         "assumptions": ["Kani/CBMC/CaDiCaL", "exp/ln_1p axiomatised in the 8PSK hard-decision harness", "posterior exactness not decided"],
+    },
+    "C03": {
+        "level": "other",
+        "title": "Both decoding schedules are textbook belief propagation for any arithmetic",
+        "verus": [],
+        "kani": {"quick": C03_KANI, "thorough": C03_KANI_THOROUGH},
+        "explanation_all": "BOUNDED. A checker-supplied exact integer min-sum arithmetic is plugged into the real generic flooding::Decoder<A> and horizontal_layered::Decoder<A>; Kani proves, for every integer LLR vector in [-7,7]^n on a fixed 2x3 and 3x4 matrix and every limit <= 2, that the result (verdict, word, iterations) equals that of an executable textbook specification in the harness (flooding: all check messages from the previous variable messages, then all variable updates; layered: rows in order with immediate updates; syndrome after each full iteration). The sum-product posterior clause is not decided.",
+        "assumptions": ["Kani/CBMC/CaDiCaL", "bounded: fixed small matrices, integer LLRs in [-7,7], limit <= 2", "one checker-supplied arithmetic (exact min-sum); tracing wrappers not used"],
     },
 }
